@@ -9,8 +9,9 @@ bound to a synthetic local that later uses of the call's value refer to).
 A helper is transparent when all of these hold
   * only its own class (non-public member function of the caller's class) or only its own translation unit (free function with
     internal linkage) can call it,
-  * no rule names it: its short name does not occur as a word in the sources of /verif/rules and /verif/engine (helpers that exist
-    today and that a rule looks for - block_end(), info(), ... - stay calls; a helper introduced later is unknown and inlined),
+  * no rule names it: its short name does not occur as a word in a string literal of the sources of /verif/rules and /verif/engine
+    (helpers that exist today and that a rule looks for - block_end(), info(), ... - stay calls; a helper introduced later is unknown
+    and inlined),
   * it is small, has a body, is not recursive, not a constructor / destructor / operator, and contains no try block.
 
 Inlining preserves the caller's semantics, so a rule deciding the caller on the inlined graph decides the real behaviour.  The helper
@@ -25,16 +26,28 @@ _WORDS = None
 
 
 def rule_words():
+    """words that occur in string literals (not docstrings) of the rule and engine sources: the names a rule can look for"""
     global _WORDS
     if _WORDS is None:
+        import ast
         words = set()
         root = os.path.dirname(os.path.dirname(os.path.abspath(__file__)))
         for sub in ('rules', 'engine'):
             d = os.path.join(root, sub)
             for fn in sorted(os.listdir(d)):
-                if fn.endswith('.py'):
-                    with open(os.path.join(d, fn)) as f:
-                        words.update(re.findall(r'[A-Za-z_]\w*', f.read()))
+                if not fn.endswith('.py'):
+                    continue
+                with open(os.path.join(d, fn)) as f:
+                    src = f.read()
+                try:
+                    tree = ast.parse(src)
+                except SyntaxError:
+                    words.update(re.findall(r'[A-Za-z_]\w*', src))
+                    continue
+                doc = {id(n.value) for n in ast.walk(tree) if isinstance(n, ast.Expr) and isinstance(n.value, ast.Constant)}
+                for n in ast.walk(tree):
+                    if isinstance(n, ast.Constant) and isinstance(n.value, str) and id(n) not in doc:
+                        words.update(re.findall(r'[A-Za-z_]\w*', n.value))
         _WORDS = words
     return _WORDS
 
@@ -149,7 +162,7 @@ def inline_one(caller, bid, idx, callee, serial):
             return None
         a = args[i]
         is_ref = '&' in str(prm.get('t', ''))
-        if (is_ref or _stable_arg(a)) and i not in assigned:
+        if is_ref or (_stable_arg(a) and i not in assigned):      # a reference parameter is a name for the argument, also when it is assigned
             bind[i] = a
         else:
             nd = did_off + 900 + i
@@ -373,3 +386,47 @@ def _replace(db, old, new):
         for i, x in enumerate(idx):
             if x is old:
                 idx[i] = new
+
+
+_SELFTEST_DONE = [False]
+
+
+def self_test():
+    """the inliner on a tiny translation unit with known helpers: an unknown private / file-local helper must vanish from its
+    callers (its writes appear in them), a helper the rules name must stay a call.  Raises AnalysisBroken otherwise."""
+    if _SELFTEST_DONE[0]:
+        return
+    from . import fixtures, build, sym
+    from .facts import top_term
+    # spelled in two halves: a helper whose name occurred in this file would count as known to the rules
+    BUMP, ROUND, RESET = 'zz_bump' + '_probe', 'zz_round' + '_probe', 'zz_reset' + '_probe'
+    db = fixtures.load_fixture_db('inline_selftest.cpp', 'pinned')
+    n = inline_helpers(db)
+    by = {f.short: f for f in db.fns.values() if 'verif_inline_probe' in f.name}
+
+    def calls(f):
+        return {top_term(e).get('short') for e in f.events() if top_term(e) is not None and top_term(e).get('k') == 'call'}
+
+    def writes(f):
+        return {sym.canon(e['lhs']) for e in f.events() if e['ev'] in ('assign', 'incdec')}
+    probs = []
+    om, of_, ok_, oo = by.get('outer_member'), by.get('outer_free'), by.get('outer_known'), by.get('outer_other')
+    if not (om and of_ and ok_ and oo):
+        probs.append('probe functions not found')
+    else:
+        if BUMP in calls(om) or 'this.cur_' not in writes(om):
+            probs.append('a private helper was not spliced into its caller (calls %s, writes %s)' % (sorted(calls(om)), sorted(writes(om))))
+        if ROUND in calls(of_):
+            probs.append('a file-local helper was not spliced into its caller')
+        if 'block_end' not in calls(ok_):
+            probs.append('a helper the rules name was inlined')
+        if RESET in calls(oo) or not any(w.endswith('other.cur_') or w.endswith('.cur_') and not w.startswith('this.') for w in writes(oo)):
+            probs.append('a helper called on another object was not spliced with that object as receiver (writes %s)' % sorted(writes(oo)))
+        oo2 = by.get('outer_out')
+        if oo2 is None or not any(w.startswith('local:v') for w in writes(oo2)):
+            probs.append('a reference out-parameter of an inlined helper does not assign the caller\'s variable (writes %s)' % (sorted(writes(oo2)) if oo2 else None))
+        if BUMP in by or RESET in by:
+            probs.append('fully inlined helpers are still functions of their own')
+    if probs:
+        raise build.AnalysisBroken('self-test of the helper inliner failed: ' + '; '.join(probs))
+    _SELFTEST_DONE[0] = True
